@@ -3,7 +3,11 @@
 set -u
 export GOPROXY=off GOSUMDB=off GOTOOLCHAIN=local
 rc=0
+# The pinned baseline was recorded without CAP_DAC_OVERRIDE (one localkm test relies on an
+# unreadable file); drop it when running as root so results match.
+PRE=""
+if [ "$(id -u)" = 0 ] && command -v setpriv >/dev/null; then PRE="setpriv --bounding-set=-dac_override,-dac_read_search"; fi
 for m in . ./gcetcbendorsement; do
-  (cd /repo/$m && go test -vet=off -count=1 -timeout 25m ./...) || rc=1
+  (cd /repo/$m && $PRE go test -vet=off -count=1 -timeout 25m ./...) || rc=1
 done
 exit $rc
